@@ -5,7 +5,7 @@ From Coq Require Import ZArith List Bool.
 From MxlBase Require Import ListX.
 From Core Require Import Sort GenSortFacts FnLib Model Cache Query.
 From Edit Require Import GenEditFacts ModelSM.
-From EditP Require Import Defs ProofsHist.
+From EditP Require Import Defs ProofsHist ProofsBatch ProofsHistory.
 Import ListNotations.
 
 (** T1: all kinds of component share one name space, after ANY history: the registry [_ids] has
@@ -24,11 +24,73 @@ Theorem C03_rejected_changes_nothing :
 Proof. exact rejected_changes_nothing. Qed.
 Print Assumptions C03_rejected_changes_nothing.
 
+(** T2, batch forms -- FULL STATEMENT (the batch methods in the validate-first form of
+    fixes/C03-batch-edits-atomic.diff, [BatchValidated]): after ANY history, a batch edit that is
+    rejected -- whichever item is at fault, for whichever reason, including a cache that cannot be
+    built while scaling an assigned parameter -- changes neither the registry nor the content.
+    PropsC03.C03_batch_facts_pinned says which form the current tree has. *)
+Theorem C03_batch_rejected_changes_nothing :
+  forall (h : list op) (b : bmut) (s' : st) (e : err),
+    batch_with BatchValidated (run_history h) b = (s', Rejected e) ->
+    s_ids s' = s_ids (run_history h) /\ s_m s' = s_m (run_history h).
+Proof. exact batch_rejected_changes_nothing. Qed.
+Print Assumptions C03_batch_rejected_changes_nothing.
+
+(** ... and the validate-first form accepts exactly what the plain fold accepts, with the same result *)
+Theorem C03_batch_validated_accepts_as_fold :
+  forall (h : list op) (b : bmut) (s' : st),
+    batch_with BatchValidated (run_history h) b = (s', Accepted) ->
+    batch_with BatchFold (run_history h) b = (s', Accepted).
+Proof. exact batch_accepted_as_fold. Qed.
+Print Assumptions C03_batch_validated_accepts_as_fold.
+
+(** T2, batch forms -- PARTIAL, for the batch methods as plain folds ([BatchFold], the tree before
+    the fix).  What the code does exactly: the loop stops at the first rejected item [mu]; the items
+    [pre] before it were all accepted and STAY APPLIED ([sk] is the state after them); the rejected
+    item and everything after it changed nothing.  Missing w.r.t. the full statement: [sk] is the
+    pre-state only when [pre] is empty (second theorem) -- see [_refuted] (finding
+    C03-batch-partial-application). *)
+Theorem C03_batch_rejected_changes_nothing_partial :
+  forall (h : list op) (b : bmut) (s' : st) (e : err),
+    batch_with BatchFold (run_history h) b = (s', Rejected e) ->
+    exists (pre : list mutator) (mu : mutator) (post : list mutator) (sk : st),
+      items b = pre ++ mu :: post /\ run_items (run_history h) pre = (sk, Accepted) /\
+      snd (mutate sk mu) = Rejected e /\ s_ids s' = s_ids sk /\ s_m s' = s_m sk.
+Proof. exact batch_rejected_partial. Qed.
+Print Assumptions C03_batch_rejected_changes_nothing_partial.
+
+Theorem C03_batch_rejected_at_first_item_changes_nothing :
+  forall (h : list op) (b : bmut) (s' : st) (e : err) (mu : mutator) (post : list mutator),
+    batch_with BatchFold (run_history h) b = (s', Rejected e) ->
+    items b = mu :: post -> snd (mutate (run_history h) mu) <> Accepted ->
+    s_ids s' = s_ids (run_history h) /\ s_m s' = s_m (run_history h).
+Proof. exact batch_rejected_first_item. Qed.
+Print Assumptions C03_batch_rejected_at_first_item_changes_nothing.
+
+(** REFUTED for the plain fold: add_parameters({11: 1, time: 2, 12: 3}) on the empty model raises
+    KeyError and leaves parameter 11 behind; the validate-first form refuses the same call with the
+    same error and the model untouched. *)
+Theorem C03_batch_rejected_changes_nothing_refuted :
+  exists (h : list op) (b : bmut) (s' : st) (e : err),
+    batch_with BatchFold (run_history h) b = (s', Rejected e) /\
+    m_par (s_m (run_history h)) = [] /\ m_par (s_m s') = [(11%N, Plain 1%Z)] /\
+    s_ids s' = [(11%N, KPar)] /\
+    batch_with BatchValidated (run_history h) b = (run_history h, Rejected e).
+Proof. exact batch_rejected_refuted. Qed.
+Print Assumptions C03_batch_rejected_changes_nothing_refuted.
+
 (** T3: the fuel of the model (nesting depth of public calls) is never exhausted *)
 Theorem C03_never_out_of_fuel :
   forall (h : list op) (mu : mutator) s', mutate (run_history h) mu <> (s', Rejected EFuel).
 Proof. exact never_out_of_fuel. Qed.
 Print Assumptions C03_never_out_of_fuel.
+
+(** T3 for the enlarged alphabet: no step (single-item mutator, batch mutator in whatever form the
+    extractor found, query) ends in the out-of-fuel outcome *)
+Theorem C03_step_never_out_of_fuel :
+  forall (h : list op) (o : op) s', step (run_history h) o <> (s', Rejected EFuel).
+Proof. exact step_never_out_of_fuel. Qed.
+Print Assumptions C03_step_never_out_of_fuel.
 
 (** T4: a name freed by a removal can be used again, under any kind *)
 Theorem C03_name_reusable :
@@ -62,3 +124,24 @@ Example C03b_nonvacuous :
   /\ snd (mutate (fst (mutate (run_history h) (RemoveSur 15%N))) (AddVar 21%N (Plain 0%Z))) = Accepted.
 Proof. cbv zeta. repeat split; vm_compute; reflexivity. Qed.
 Print Assumptions C03b_nonvacuous.
+
+(** non-vacuity for the batch forms: after a history with batches and a query, (1) scale_parameters
+    over a plain and an ASSIGNED parameter while a derived quantity misses its argument: the fold
+    scales 11 and then fails building the cache, the validate-first form puts 11 back;
+    (2) remove_parameters with a repeated name; (3) an accepted batch gives the same state in both forms *)
+Example C03b_batch_nonvacuous :
+  let h := [Bat (AddPars [(11%N, Plain 2%Z); (17%N, IA 0%N [11%N])]); Bat (AddVars [(12%N, Plain 1%Z)]);
+            Ask QIc; Mut (AddDer 13%N 0%N [31%N])] in
+  let sc := ScalePars [(11%N, 3%Z); (17%N, 2%Z)] in
+  snd (batch_with BatchFold (run_history h) sc) = Rejected (EMissing [(13%N, [31%N])])
+  /\ lookup 11%N (m_par (s_m (fst (batch_with BatchFold (run_history h) sc)))) = Some (Plain 6%Z)
+  /\ snd (batch_with BatchValidated (run_history h) sc) = Rejected (EMissing [(13%N, [31%N])])
+  /\ s_m (fst (batch_with BatchValidated (run_history h) sc)) = s_m (run_history h)
+  /\ snd (batch_with BatchFold (run_history h) (RemovePars [11%N; 11%N])) = Rejected EKey
+  /\ keys (m_par (s_m (fst (batch_with BatchFold (run_history h) (RemovePars [11%N; 11%N]))))) = [17%N]
+  /\ batch_with BatchValidated (run_history h) (RemovePars [11%N; 11%N]) = (run_history h, Rejected EKey)
+  /\ batch_with BatchValidated (run_history h) (UpdateVars [(12%N, Plain 5%Z)])
+     = batch_with BatchFold (run_history h) (UpdateVars [(12%N, Plain 5%Z)])
+  /\ snd (batch_with BatchFold (run_history h) (UpdateVars [(12%N, Plain 5%Z)])) = Accepted.
+Proof. cbv zeta. repeat split; vm_compute; reflexivity. Qed.
+Print Assumptions C03b_batch_nonvacuous.
